@@ -525,6 +525,28 @@ pub fn run(run: &mut Run, extra: &[String]) {
     if std::path::Path::new(BIN).exists() {
         run.sub("cli-identifiers", sp.len() as u64, |l, idx, _rng| {
             check_cli(l, &sp[idx as usize], &pins);
+            // the documented girth through the command line (normal 1/2; in the thorough tier also short 1/2 and normal 3/5)
+            let s0 = &sp[idx as usize];
+            if (s0.rate == "1/2" && !s0.short) || (tier == Tier::Thorough && ((s0.rate == "1/2" && s0.short) || (s0.rate == "3/5" && !s0.short))) {
+                let mut a = vec!["dvbs2", "--rate", s0.rate, "--girth"];
+                if s0.short {
+                    a.push("--short");
+                }
+                l.eval();
+                match run_cli(&a, 600) {
+                    Err(e) => l.inconclusive(format!("cli {:?}: {}", a, e)),
+                    Ok((code, out, err)) => {
+                        if code != 0 || out.trim() != "Code girth = 6" {
+                            l.violation(
+                                format!("{}: the command line's --girth does not report the girth 6 of the code", s0.name),
+                                J::obj().set("args", format!("{:?}", a)).set("exit", code).set("stdout", out.chars().take(100).collect::<String>()).set("stderr", err.chars().take(200).collect::<String>()),
+                            );
+                        } else {
+                            l.count("cli_girth_reports_checked");
+                        }
+                    }
+                }
+            }
             // fault at the output for a third of the identifiers
             if idx % 3 == 0 && !reference.is_empty() {
                 let s = &sp[idx as usize];
